@@ -2,7 +2,7 @@ import sys, os
 sys.path.insert(0, os.path.join(os.path.dirname(os.path.abspath(__file__)), '..', 'checks'))
 sys.path.insert(0, os.path.join(os.path.dirname(os.path.abspath(__file__)), '..', 'sx'))
 import build as B
-B.gc(keep=8)
+B.gc(keep=14)
 import maps_common
 maps_common.maps_build()
 import field_common
@@ -16,3 +16,5 @@ c17.loaders_build(); mainloop.main_build()
 import mainsetup; mainsetup.setup_build()
 import c13
 c13.opts_build()
+import c20
+c20.parse_build()
